@@ -41,8 +41,19 @@ def sh(cmd, timeout=600, cwd=None, env=None):
         return 124, out + "\nTIMEOUT"
 
 
+def deps_of(prop):
+    """coq/<prop>/DEPS: other property developments (one id per line) this one imports."""
+    p = os.path.join(COQ, prop, "DEPS")
+    if not os.path.exists(p):
+        return []
+    return [l.strip() for l in open(p) if l.strip() and not l.startswith("#")]
+
+
 def qflags(prop):
-    return ["-Q", os.path.join(COQ, "Base"), "Base", "-Q", os.path.join(COQ, prop), prop]
+    fl = ["-Q", os.path.join(COQ, "Base"), "Base"]
+    for d in deps_of(prop):
+        fl += ["-Q", os.path.join(COQ, d), d]
+    return fl + ["-Q", os.path.join(COQ, prop), prop]
 
 
 def build_base():
@@ -78,8 +89,12 @@ def build_prop(prop):
     rc, out = build_base()
     if rc != 0:
         return rc, out
+    for dep in deps_of(prop):
+        rc, out = build_prop(dep)
+        if rc != 0:
+            return rc, out
     d = os.path.join(COQ, prop)
-    return _make(d, prop, extra_q=[("../Base", "Base")])
+    return _make(d, prop, extra_q=[("../Base", "Base")] + [("../" + x, x) for x in deps_of(prop)])
 
 
 def coqc_file(prop, path, timeout=300):
